@@ -48,6 +48,7 @@ class ZBOSS:
 
         self._listeners = defaultdict(list)
         self._blocking_request_lock = asyncio.Lock()
+        self._tx_message_lock = asyncio.Lock()
 
         self.nvram = NVRAMHelper(self)
         self.network_info: zigpy.state.NetworkInformation = None
@@ -212,10 +213,17 @@ class ZBOSS:
 
     async def _send_frags(self, fragments, response_future, timeout):
         """Send frame fragments to the uart."""
-        for frag in fragments:
-            if frag.ll_header.flags.value & t.LLFlags.LastFrag.value:
-                return await self._send_to_uart(frag, response_future, timeout)
-            await self._send_to_uart(frag, None)
+        # Fragments of one message must not be interleaved with other frames
+        async with self._tx_message_lock:
+            for frag in fragments:
+                await self._send_to_uart(frag, None)
+
+        try:
+            async with async_timeout.timeout(timeout):
+                return await response_future
+        except asyncio.TimeoutError:
+            LOGGER.debug(f"Timeout after {timeout}s: {fragments[-1]}")
+            raise
 
     async def _send_to_uart(
             self, frame, response_future=None, timeout=DEFAULT_TIMEOUT):
